@@ -19,6 +19,7 @@ func (fr *Frame) exec(st *State, pc Term, ins ssa.Instruction) bool {
 	e := fr.e
 	u := e.p.U
 	e.curPC = pc
+	e.curPos = ins.Pos()
 	defer func() {
 		if r := recover(); r != nil {
 			e.fail("%s: %s: %v [%s]", fr.key, e.posStr(ins.Pos()), r, ins.String())
@@ -165,6 +166,11 @@ func (fr *Frame) exec(st *State, pc Term, ins ssa.Instruction) bool {
 			if fl, ok := xv.FLab[ins.Field]; ok {
 				flab = fl
 				own = xv.FOwn[ins.Field]
+			} else if xv.Own != "" {
+				own = xv.Own
+				if xv.Lab != "" {
+					flab = xv.Lab
+				}
 			} else if xv.Lab != "" {
 				flab = xv.Lab
 			} else {
@@ -474,7 +480,9 @@ func (fr *Frame) sliceOp(st *State, pc Term, ins *ssa.Slice) Val {
 			hi = x.Len
 		}
 		fr.safety("slice", ins.Pos(), pc, And(Cmp("<=", IntLit(0), lo), Cmp("<=", lo, hi), Cmp("<=", hi, x.Len)), "slice bounds (capacity approximated by length)")
-		return Val{K: vSlice, R: x.R, Off: e.name("off", Arith("+", x.Off, lo)), Len: e.name("len", Arith("-", hi, lo)), S: e.p.sortOf(ins.Type())}
+		// x[lo:hi] with an explicit hi keeps spare capacity inside x: a later append overwrites x's elements
+		return Val{K: vSlice, R: x.R, Off: e.name("off", Arith("+", x.Off, lo)), Len: e.name("len", Arith("-", hi, lo)), S: e.p.sortOf(ins.Type()),
+			SubOf: x.SubOf || (hasHi && ins.Max == nil)}
 	case vAddr:
 		if x.R.Kind == 1 && len(x.Path) == 0 {
 			n := IntLit(int64(x.R.N))
